@@ -182,6 +182,23 @@ func distinctBinaries(p *profile.Profile) bool {
 // samples of p) with the reference report of p.
 func checkFormats(c *harness.Ctx, p *profile.Profile, o Opt, profs map[string]*profile.Profile, srcs []string) string {
 	merged := len(srcs) > 1
+	// given as several sources, stacks whose values cancel are dropped by the merge before any edge
+	// is drawn: an edge of weight 0 may be absent there (and present for the single source)
+	diffE := func(want, got []ref.EdgeRow) string {
+		if merged {
+			nz := func(es []ref.EdgeRow) []ref.EdgeRow {
+				var out []ref.EdgeRow
+				for _, e := range es {
+					if e.W != 0 {
+						out = append(out, e)
+					}
+				}
+				return out
+			}
+			want, got = nz(want), nz(got)
+		}
+		return diffEdges(want, got)
+	}
 	rep := ref.Report(p, o.RefOpts())
 	wantRows := rep.Rows()
 	wantEdges := rep.EdgeRows()
@@ -268,10 +285,10 @@ func checkFormats(c *harness.Ctx, p *profile.Profile, o Opt, profs map[string]*p
 	if d := diffRows(wantRows, trows); d != "" {
 		return "-tree " + d + "\n" + out
 	}
-	if d := diffEdges(wantEdges, tedgesOut); d != "" {
+	if d := diffE(wantEdges, tedgesOut); d != "" {
 		return "-tree callee lines: " + d + "\n" + out
 	}
-	if d := diffEdges(wantEdges, tedgesIn); d != "" {
+	if d := diffE(wantEdges, tedgesIn); d != "" {
 		return "-tree caller lines: " + d + "\n" + out
 	}
 	// ---- peek (all entries)
@@ -300,7 +317,7 @@ func checkFormats(c *harness.Ctx, p *profile.Profile, o Opt, profs map[string]*p
 	if d := diffRows(wantRows, prow); d != "" {
 		return "-peek=. " + d + "\n" + out
 	}
-	if d := diffEdges(wantEdges, pedges); d != "" {
+	if d := diffE(wantEdges, pedges); d != "" {
 		return "-peek=. callee lines: " + d + "\n" + out
 	}
 	// ---- dot (graph form)
@@ -332,7 +349,7 @@ func checkFormats(c *harness.Ctx, p *profile.Profile, o Opt, profs map[string]*p
 	if d := diffRows(wantRows, drows); d != "" {
 		return "-dot " + d + "\n" + out
 	}
-	if d := diffEdges(wantEdges, dedges); d != "" {
+	if d := diffE(wantEdges, dedges); d != "" {
 		return "-dot " + d + "\n" + out
 	}
 	// ---- traces (per sample; a single source is reported unmerged)
